@@ -129,11 +129,11 @@ class World:
             orig_fp = scheduler.Cell._find_placements
             orig_sched = scheduler.Cell.schedule
 
-            def _capture(cell, queue, servers):
+            def _capture(cell, queue, *rest, **kw):
                 world.queues.append([[world.aname(a.name),
                                       (-1 if a.final_rank == scheduler._UNPLACED_RANK
                                        else int(a.final_rank)), bool(a.server)] for a in queue])
-                return orig_fp(cell, queue, servers)
+                return orig_fp(cell, queue, *rest, **kw)
 
             def _schedule(cell):
                 world.queues = []
@@ -452,9 +452,34 @@ class World:
         self.master.check_placement_integrity()
 
     def ev_StaleCycle(self):
-        """A cycle while watch events are still in flight (the master schedules
-        on a view that lags the store)."""
+        """A cycle while watch events are still in flight (run_loop schedules after
+        at most _EVENT_BATCH_COUNT events, whatever is still queued), followed by
+        the integrity check as in run_loop.  A live master that fails its check
+        exits: it is down from here on (not an error of the step)."""
         self.master.reschedule()
+        try:
+            self.master.check_placement_integrity()
+        except AssertionError as err:
+            if 'integrity' not in str(err):
+                raise
+            self.master = None
+            self.died = True
+
+    def ev_StaleCrashCycle(self, k):
+        self.ev_CrashCycle(k)
+
+    def ev_Kill(self):
+        self.master = None
+
+    def ev_DeliverPath(self, key):
+        """Only the watch of one path fires."""
+        path = {'scheduled': z.SCHEDULED, 'presence': z.SERVER_PRESENCE, 'events': z.EVENTS}[key]
+        was = getattr(self, 'deferred', False)
+        self.deferred = False
+        try:
+            self.deliver(only=path)
+        finally:
+            self.deferred = was
 
     def ev_Restart(self):
         self.start_master()
@@ -493,7 +518,7 @@ class World:
         self.deferred = False
         self.deliver()
 
-    def deliver(self):
+    def deliver(self, only=None):
         if self.master is None or getattr(self, 'deferred', False):
             return
         process = master_mod.Master.process.__wrapped__
@@ -502,6 +527,8 @@ class World:
             order = list(WATCHED)
             self.rng.shuffle(order)     # watches fire independently: no order between paths
             for path in order:
+                if only is not None and path != only:
+                    continue
                 kids = sorted(self.admin.get_children(path))
                 if kids != self.delivered.get(path):
                     self.delivered[path] = kids
@@ -512,11 +539,19 @@ class World:
 
     def apply(self, ev, args):
         self.v.step()
+        self.died = False
+        self.noop = False
+        if self.master is None and ev in ('Cycle', 'StaleCycle', 'CrashCycle', 'StaleCrashCycle',
+                                          'Integrity', 'Kill'):
+            self.noop = True        # the master is down (it failed its own check): nothing runs
+            self.crashed = False
+            return
         if ev in ('Cycle', 'CrashCycle', 'Integrity') and getattr(self, 'deferred', False):
             self.deferred = False
             self.deliver()      # the loop drains its queue before it schedules
         getattr(self, 'ev_' + ev)(*args)
-        if ev not in ('Cycle', 'Restart', 'CrashCycle', 'CrashRestart', 'Tick', 'Integrity', 'Defer', 'Deliver', 'StaleCycle'):
+        if ev not in ('Cycle', 'Restart', 'CrashCycle', 'CrashRestart', 'Tick', 'Integrity', 'Defer', 'Deliver', 'StaleCycle',
+                      'StaleCrashCycle', 'Kill', 'DeliverPath'):
             self.deliver()
 
     # -- projections ---------------------------------------------------------
@@ -685,12 +720,16 @@ def replay(scn, history):
                     line['queues'] = w.init_queues
                     line['placement'] = [[w.aname(n), b or '', rels(eb), a or '', rels(ea)]
                                          for n, b, eb, a, ea in w.init_placement]
-            if ev in ('CrashCycle', 'CrashRestart'):
+            if ev in ('CrashCycle', 'CrashRestart', 'StaleCrashCycle'):
                 line['crashed'] = bool(getattr(w, 'crashed', False))
+            if getattr(w, 'died', False):
+                line['died'] = True
+            if getattr(w, 'noop', False):
+                line['noop'] = True
             if ev != 'Cycle' and probe is None:
                 quiet = False
             lines.append(line)
-            if w.master is None and ev not in ('CrashCycle', 'CrashRestart') and 'exc' in line:
+            if w.master is None and ev not in ('CrashCycle', 'CrashRestart', 'StaleCrashCycle') and 'exc' in line:
                 break
     finally:
         w.close()
